@@ -429,3 +429,96 @@ Proof.
       destruct (a (rq m r n v1 w)) eqn:Q1; [|reflexivity]. destruct (a (rq m r n v2 w)) eqn:Q2; [|reflexivity].
       exfalso. assert (v1 = v2) by (apply (H w); auto; lia). lia.
 Qed.
+
+(* ---------- bphp: T2 ---------- *)
+Definition bphp_enc (n : Z) (h : Z -> Z) : Z -> bool :=
+  fun v => let K := bphp_bits n in Z.testbit (h ((v - 1) / K + 1)) (K - 1 - (v - 1) mod K).
+
+Lemma bphp_enc_bit n h i b : 0 <= b < bphp_bits n ->
+  bphp_enc n h (bitvar (bphp_bits n) i b) = Z.testbit (h i) b.
+Proof.
+  intros Hb. unfold bphp_enc, bitvar. cbv zeta. set (K := bphp_bits n) in *.
+  replace (i * K - b - 1) with (K * (i - 1) + (K - 1 - b)) by lia.
+  rewrite <- (Z.div_unique (K * (i - 1) + (K - 1 - b)) K (i - 1) (K - 1 - b)) by lia.
+  rewrite <- (Z.mod_unique (K * (i - 1) + (K - 1 - b)) K (i - 1) (K - 1 - b)) by lia.
+  replace (i - 1 + 1) with i by lia. replace (K - 1 - (K - 1 - b)) with b by lia. reflexivity.
+Qed.
+
+Lemma bphp_enc_value n h i : 0 <= h i -> forall k, Z.of_nat k <= bphp_bits n ->
+  bits_value (bphp_enc n h) (bphp_bits n) i k = h i mod 2 ^ Z.of_nat k.
+Proof.
+  intros Hh. induction k as [|k IH]; intros Hk.
+  - cbn. now rewrite Z.mod_1_r.
+  - cbn [bits_value]. rewrite IH by lia. rewrite bphp_enc_bit by lia.
+    rewrite Nat2Z.inj_succ, <- Z.add_1_r. rewrite (mod_pow2_succ (h i) (Z.of_nat k)) by lia. reflexivity.
+Qed.
+
+Theorem bphp_T2 m n h : 1 <= n -> binary_placement m n h ->
+  exists a, irs_hold a (bphp_ir m n) = true /\ forall i, 1 <= i <= m -> bphp_hole a n i = h i.
+Proof.
+  intros Hn HP. destruct (bphp_bits_spec n Hn) as [HK Hpow]. exists (bphp_enc n h).
+  assert (E : forall i, 1 <= i <= m -> bphp_hole (bphp_enc n h) n i = h i).
+  { intros i Hi. destruct HP as [Hr _]. specialize (Hr i Hi). unfold bphp_hole.
+    rewrite bphp_enc_value by lia. rewrite Z2Nat.id by assumption. apply Z.mod_small. lia. }
+  split; [|exact E]. apply bphp_T1; [assumption|]. destruct HP as [Hr Hinj]. split.
+  - intros i Hi. rewrite E by assumption. auto.
+  - intros i1 i2 Hi1 Hi2. rewrite !E by assumption. auto.
+Qed.
+
+(* ---------- rphp: T2 ---------- *)
+Definition rphp_enc (m r n : Z) (P Q : Z -> Z -> bool) (S : Z -> bool) : Z -> bool :=
+  fun v => if v <=? m * r then P ((v - 1) / r + 1) ((v - 1) mod r + 1)
+           else if v <=? m * r + r * n then Q ((v - m * r - 1) / n + 1) ((v - m * r - 1) mod n + 1)
+           else S (v - m * r - r * n).
+
+Lemma rphp_enc_P m r n P Q S u v : 1 <= u <= m -> 1 <= v <= r -> rphp_P (rphp_enc m r n P Q S) r u v = P u v.
+Proof.
+  intros Hu Hv. unfold rphp_P, rphp_enc, rp. pose proof (bvar_range 0 m r u v Hu Hv) as B.
+  destruct (Z.leb_spec (bvar 0 r u v) (m * r)); [|lia].
+  destruct (bvar_inv 0 r u v Hv) as [A1 A2]. replace (bvar 0 r u v - 0 - 1) with (bvar 0 r u v - 1) in * by lia.
+  now rewrite A1, A2.
+Qed.
+Lemma rphp_enc_Q m r n P Q S v w : 1 <= v <= r -> 1 <= w <= n -> rphp_Q (rphp_enc m r n P Q S) m r n v w = Q v w.
+Proof.
+  intros Hv Hw. unfold rphp_Q, rphp_enc, rq. pose proof (bvar_range (m * r) r n v w Hv Hw) as B.
+  destruct (Z.leb_spec (bvar (m * r) n v w) (m * r)); [lia|].
+  destruct (Z.leb_spec (bvar (m * r) n v w) (m * r + r * n)); [|lia].
+  destruct (bvar_inv (m * r) n v w Hw) as [A1 A2]. now rewrite A1, A2.
+Qed.
+Lemma rphp_enc_S m r n P Q S v : 0 <= r -> 0 <= n -> 1 <= v -> rphp_S (rphp_enc m r n P Q S) m r n v = S v.
+Proof.
+  intros Hr Hn Hv. unfold rphp_S, rphp_enc, rr. pose proof (Z.mul_nonneg_nonneg r n Hr Hn).
+  destruct (Z.leb_spec (m * r + r * n + v) (m * r)); [lia|].
+  destruct (Z.leb_spec (m * r + r * n + v) (m * r + r * n)); [lia|]. f_equal. lia.
+Qed.
+
+Lemma relativized_placement_ext m r n P Q S P' Q' S' :
+  (forall u v, 1 <= u <= m -> 1 <= v <= r -> P u v = P' u v) ->
+  (forall v w, 1 <= v <= r -> 1 <= w <= n -> Q v w = Q' v w) ->
+  (forall v, 1 <= v <= r -> S v = S' v) ->
+  relativized_placement m r n P Q S -> relativized_placement m r n P' Q' S'.
+Proof.
+  intros EP EQ ES (H1 & H2 & H3 & H4 & H5). repeat split.
+  - intros u Hu. destruct (H1 u Hu) as [v [Hv Pt]]. exists v. split; auto. now rewrite <- EP.
+  - intros v u1 u2 Hv Hu1 Hu2 A B. apply (H2 v); auto; now rewrite EP.
+  - intros u v Hu Hv A. rewrite <- ES by assumption. apply (H3 u v); auto. now rewrite EP.
+  - intros v Hv A. destruct (H4 v Hv) as [w [Hw Qt]]; [now rewrite ES|]. exists w. split; auto. now rewrite <- EQ.
+  - intros w v1 v2 Hw Hv1 Hv2 A1 A2 B1 B2. apply (H5 w); auto; try (now rewrite ES); now rewrite EQ.
+Qed.
+
+Theorem rphp_T2 m r n P Q S : 0 <= m -> 0 <= r -> 0 <= n -> relativized_placement m r n P Q S ->
+  exists a, irs_hold a (rphp_ir m r n) = true /\
+    (forall u v, 1 <= u <= m -> 1 <= v <= r -> rphp_P a r u v = P u v) /\
+    (forall v w, 1 <= v <= r -> 1 <= w <= n -> rphp_Q a m r n v w = Q v w) /\
+    (forall v, 1 <= v <= r -> rphp_S a m r n v = S v).
+Proof.
+  intros Hm Hr Hn HP. exists (rphp_enc m r n P Q S).
+  assert (EP : forall u v, 1 <= u <= m -> 1 <= v <= r -> rphp_P (rphp_enc m r n P Q S) r u v = P u v)
+    by (intros; now apply rphp_enc_P).
+  assert (EQ : forall v w, 1 <= v <= r -> 1 <= w <= n -> rphp_Q (rphp_enc m r n P Q S) m r n v w = Q v w)
+    by (intros; now apply rphp_enc_Q).
+  assert (ES : forall v, 1 <= v <= r -> rphp_S (rphp_enc m r n P Q S) m r n v = S v)
+    by (intros; apply rphp_enc_S; lia).
+  split; [|auto]. apply rphp_T1; try assumption.
+  apply (relativized_placement_ext m r n P Q S); auto; intros; symmetry; auto.
+Qed.
